@@ -80,8 +80,11 @@ int aln_param_init(struct aln_param **aln_param,int biotype , int n_threads, int
                 ERROR_MSG("Unable to determine what alphabet to use.");
         }
 
-        if(isinf(gpo) || isinf(gpe) || isinf(tgpe)){
-                ERROR_MSG("Gap penalties have to be finite numbers.");
+        /* The dynamic programming works on floats with -FLT_MAX as "impossible": a penalty
+           that can push a score to -inf leaves it without a valid path. Real penalties are
+           far below this bound. */
+        if(isinf(gpo) || isinf(gpe) || isinf(tgpe) || gpo > 1e6f || gpe > 1e6f || tgpe > 1e6f){
+                ERROR_MSG("Gap penalties have to be finite numbers below 1e6.");
         }
         if(gpo >= 0.0){
                 ap->gpo = gpo;
